@@ -27,8 +27,8 @@ open RdfModel RdfModel.Desc RdfModel.JL RdfModel.JLEnc
 variable {β : Type}
 
 /-- **Fragment writer.** For every well-formed dataset `d`, every injective labelling of its blank nodes
-    by non-empty labels and all choices `ch` (processing mode, document base, inline context, nesting, lists, native values,
-    document shape, …), the document `write name d ch` is inside the fragment and denotes a dataset
+    by non-empty labels and all choices `ch` (processing mode, document base, inline context, local contexts on embedded node
+    objects and graph members, nesting, lists, native values, document shape, …), the document `write name d ch` is inside the fragment and denotes a dataset
     isomorphic to `d` (same quads up to an injective renaming of blank nodes, multiplicities kept). -/
 theorem write_denotes [DecidableEq β] (name : β → Str) (hname : Function.Injective name)
     (hne : ∀ b, name b ≠ []) (d : List (DQuad β)) (hwf : WFDataset d) (ch : Choices) :
@@ -113,8 +113,11 @@ def name (n : Nat) : Str := natDigits n
 def ctx : Json :=
   .obj [(asc "v", .str (asc "http://e.org/v/")), (asc "q", .obj [(kId, .str (asc "v:p")), (kContainer, .str kSet)])]
 
+/-- a local context for embedded node objects: `{"w": "http://e.org/w/", "@language": null}` -/
+def localCtx : Json := .obj [(asc "w", .str (asc "http://e.org/w/")), (kLanguage, .null)]
+
 def ch : Choices :=
-  { mode11 := true, base := none, context := some ctx, nest := true, lists := true, anonTop := true,
+  { mode11 := true, base := none, context := some ctx, localContext := some localCtx, nest := true, lists := true, anonTop := true,
     natives := true, useType := true, compactGroups := true, shape := 1, seed := 0 }
 
 def cfg : Cfg Nat := { base := none, prefixes := [(asc "v", asc "http://e.org/v/")], buffered := false, label := name }
